@@ -275,6 +275,7 @@ func sameGV(a, b GV) bool {
 func unmarshalCase(line string, rep *Report, fnd *Findings) {
 	var gl struct {
 		Doc    Doc    `json:"doc"`
+		Twin   Doc    `json:"twin"` // if present: the node-set is the query's result in doc followed by its result in twin
 		Env    *Env   `json:"env"`
 		Type   TypeD  `json:"type"`
 		Form   string `json:"form"`
@@ -323,6 +324,23 @@ func unmarshalCase(line string, rep *Report, fnd *Findings) {
 	if o.err != nil || o.panic != nil {
 		rep.infra(fmt.Sprint("result expression failed: ", o.err, o.panic))
 		return
+	}
+	if len(gl.Twin) > 0 {
+		// nodes of two documents in one call
+		tb, err := Build(gl.Twin)
+		if err != nil {
+			rep.infra(err.Error())
+			return
+		}
+		o2 := execSafe(tb.Root, &c.g, settings)
+		ns1, ok1 := o.res.(xsel.NodeSet)
+		ns2, ok2 := o2.res.(xsel.NodeSet)
+		if o2.err != nil || o2.panic != nil || !ok1 || !ok2 {
+			rep.infra("two-document case needs node-set results")
+			return
+		}
+		o.res = append(append(xsel.NodeSet{}, ns1...), ns2...)
+		desc += " over nodes of two documents"
 	}
 	rt, err := goType(&gl.Type)
 	if err != nil {
